@@ -87,8 +87,13 @@ P448 = (1 << 448) - (1 << 224) - 1
 GEN1 = (1 << 127) - 1
 GEN2 = ((1 << 190) + 0x1234567) | 1
 GEN3 = (1 << 64) - 59
+# look-alikes: same length as a prime with a specialised reduction, same leading (or trailing) 64 bits, different elsewhere -
+# the selection of the specialised code must compare the whole modulus
 MODULI = (("p256", P256), ("p384", P384), ("p521", P521), ("ed448", P448), ("generic127", GEN1), ("generic190", GEN2),
-          ("generic64", GEN3))
+          ("generic64", GEN3),
+          ("like-p256 (bit 100 flipped)", P256 ^ (1 << 100)), ("like-p256 (bit 250 flipped)", P256 ^ (1 << 250)),
+          ("like-p384 (bit 70 flipped)", P384 ^ (1 << 70)), ("like-p521 (bit 300 flipped)", P521 ^ (1 << 300)),
+          ("like-ed448 (bit 100 flipped)", P448 ^ (1 << 100)))
 
 
 def operands(p):
@@ -185,6 +190,8 @@ def mont_rows(prog, sh=None, inverse=False, thorough=False):
             pairs = [pairs[(i * (step + 1)) % len(pairs)] for i in range(QUICK_PAIRS)]
         cc = carry_chain_pairs(p)
         pairs = pairs + (cc if thorough else cc[:10])
+        if name.startswith("like-"):
+            pairs = [(ops[3], ops[4]), (ops[8], ops[10]), (ops[12], ops[12]), (ops[5], ops[13])] + cc[:2]
         pairs = [pr for i, pr in enumerate(pairs) if halves[i % 2]]
         c = None
         for (a, b) in pairs:
